@@ -25,6 +25,7 @@ import PrqlModel.Drv.InferSorts
 import PrqlModel.Drv.Flatten
 import PrqlModel.Drv.CteOrder
 import PrqlModel.Drv.Preprocess
+import PrqlModel.Drv.Positional
 namespace Drv
 
 def handlers : List (List String → Option String) := [
@@ -48,7 +49,8 @@ def handlers : List (List String → Option String) := [
   Drv.InferSorts.handle,
   Drv.Flatten.handle,
   Drv.CteOrder.handle,
-  Drv.Preprocess.handle
+  Drv.Preprocess.handle,
+  Drv.Positional.handle
 ]
 
 def handle (fields : List String) : String :=
